@@ -263,6 +263,12 @@ func c08Clones(c *Ctx) {
 					for _, rr := range *fa.Referrers() {
 						if s, ok := rr.(*ssa.Store); ok && s.Addr == fa {
 							stored[st.Field(fa.Field).Name()] = desc(s.Val)
+							// a nested clone: a module call whose receiver/argument is the receiver's field of the same name
+							if cc, isCall := s.Val.(*ssa.Call); isCall && staticCallee(cc) != nil && w.IsProductFn(staticCallee(cc)) {
+								for _, a := range callArgs(cc) {
+									stored[st.Field(fa.Field).Name()] += " <- " + desc(a)
+								}
+							}
 						}
 					}
 				}
@@ -411,7 +417,16 @@ func c08OCI(c *Ctx) {
 	nExact, nWild := 0, 0
 	okGuards := true
 	detail := ""
+	// the repository path: result 0 of the module function (string) -> (string, error) applied to the reference
 	var pathD string
+	var pathCall *ssa.Call
+	for _, ci := range allCalls(SEL) {
+		if call, ok := ci.(*ssa.Call); ok {
+			if g := staticCallee(call); g != nil && w.IsProductFn(g) && len(call.Call.Args) == 1 && desc(call.Call.Args[0]) == ref && g.Signature.Results().Len() == 2 && g.Signature.Results().At(0).Type().String() == "string" {
+				pathD, pathCall = res(call, 0), call
+			}
+		}
+	}
 	for bi := range lb {
 		for _, in := range SEL.Blocks[bi].Instrs {
 			call, ok := in.(*ssa.Call)
@@ -419,7 +434,7 @@ func c08OCI(c *Ctx) {
 				continue
 			}
 			g := staticCallee(call)
-			if g == nil || !strings.Contains(strings.ToLower(g.Name()), "clone") {
+			if g == nil || !isCloneMethod(g) {
 				continue
 			}
 			stmt := desc(call.Call.Args[0])
@@ -436,9 +451,8 @@ func c08OCI(c *Ctx) {
 				arg := strings.TrimSuffix(strings.TrimPrefix(l, "T(call:ngo/internal/slices.Contains("+stmt+".RegistryScopes,"), "))")
 				if arg == fmt.Sprintf("const:%q", wc) {
 					kind = "wild"
-				} else if strings.HasPrefix(arg, "call:") && strings.HasSuffix(arg, "("+ref+")#0") {
+				} else if pathD != "" && arg == pathD {
 					kind = "exact"
-					pathD = arg
 				}
 			}
 			// which header phi does the clone flow into?
@@ -525,16 +539,14 @@ func c08OCI(c *Ctx) {
 	// repository path function
 	if pathD != "" {
 		var PF *ssa.Function
-		for _, ci := range allCalls(SEL) {
-			if call, ok := ci.(*ssa.Call); ok && desc(call)+"#0" == pathD {
-				PF = staticCallee(call)
-			}
+		if pathCall != nil {
+			PF = staticCallee(pathCall)
 		}
 		s := w.Summarize(SEL, Mode{Kind: mErr})
 		c.Evals += s.States
 		c.requireOnExits("oci/path", SEL, s.Exits, []Need{
 			{Name: "separator-found", What: "strings.LastIndex(reference, \"@\") >= 0", Subs: []string{"GE(call:strings.LastIndex(" + ref + `,const:"@"),const:0)`}},
-			{Name: "path-error", What: "repository path extraction err == nil", Subs: []string{"EQ(" + strings.TrimSuffix(pathD, "#0") + "#err,nil)"}},
+			{Name: "path-error", What: "repository path extraction err == nil", Subs: []string{"EQ(" + desc(pathCall) + "#err,nil)"}},
 			{Name: "format-validated", What: "the extracted path passes the scope format validator", Subs: []string{"EQ(call:ngo/verifier/trustpolicy.", "(" + ref + "[:call:strings.LastIndex(" + ref + `,const:"@")])#err,nil)`}},
 		})
 		if PF != nil {
